@@ -103,6 +103,18 @@ theorem mkChunks_get (si : BitVec 16) (msg : Nat) (ppi : BitVec 32) (u : Bool) (
       · rw [BitVec.add_assoc]; congr 1
         apply BitVec.eq_of_toNat_eq; simp [BitVec.toNat_add, BitVec.toNat_ofNat]; omega
 
+theorem mkChunks_static (si : BitVec 16) (msg : Nat) (ppi : BitVec 32) (u : Bool) (ssn : BitVec 16) (mid : BitVec 32)
+    (fs : List Nat) (fsn : BitVec 32) (first : Bool) :
+    ∀ c ∈ Sender.mkChunks si msg ppi u ssn mid fs fsn first, c.unordered = u ∧ c.ppi = ppi ∧ c.si = si ∧ c.msg = msg := by
+  induction fs generalizing fsn first with
+  | nil => intro c hc; simp [Sender.mkChunks] at hc
+  | cons f r ih =>
+    intro c hc
+    simp only [Sender.mkChunks, List.mem_cons] at hc
+    rcases hc with h | h
+    · subst h; exact ⟨rfl, rfl, rfl, rfl⟩
+    · exact ih _ _ c h
+
 theorem mkChunks_length (si : BitVec 16) (msg : Nat) (ppi : BitVec 32) (u : Bool) (ssn : BitVec 16) (mid : BitVec 32)
     (fs : List Nat) (fsn : BitVec 32) (first : Bool) : (Sender.mkChunks si msg ppi u ssn mid fs fsn first).length = fs.length :=
   (mkChunks_spec si msg ppi u ssn mid fs fsn first).2.2.1
